@@ -27,6 +27,10 @@ mod common;
 mod fmt_arp;
 #[path = "wire/fmt_eth.rs"]
 mod fmt_eth;
+#[path = "wire/fmt_icmpv4.rs"]
+mod fmt_icmpv4;
+#[path = "wire/fmt_icmpv6.rs"]
+mod fmt_icmpv6;
 #[path = "wire/fmt_ipv4.rs"]
 mod fmt_ipv4;
 #[path = "wire/fmt_ipv6.rs"]
@@ -38,7 +42,7 @@ mod oracle;
 
 use common::Format;
 
-const FORMATS: &[&Format] = &[&fmt_eth::FORMAT, &fmt_arp::FORMAT, &fmt_udp::FORMAT, &fmt_ipv4::FORMAT, &fmt_ipv6::FORMAT];
+const FORMATS: &[&Format] = &[&fmt_eth::FORMAT, &fmt_arp::FORMAT, &fmt_udp::FORMAT, &fmt_ipv4::FORMAT, &fmt_ipv6::FORMAT, &fmt_icmpv4::FORMAT, &fmt_icmpv6::FORMAT];
 
 fn format(name: &str) -> &'static Format {
     FORMATS.iter().find(|f| f.name == name).unwrap_or_else(|| panic!("unknown format {}", name))
